@@ -202,6 +202,19 @@ fn drive(case: &CyclesCase, d: &mut Driver, max_cycles: usize) -> bool {
         }
         let s = if case.sched.is_empty() { 0 } else { case.sched[sched_pos % case.sched.len()] };
         sched_pos += 1;
+        // now and then the whole graph is replaced by a copy of itself: clone, save+load, clone_from
+        if guard % 97 == 0 && case.k_long & 1 == 1 {
+            let c = match (s as usize + guard / 97) % 4 {
+                0 => Call::Clone,
+                1 => Call::SaveLoad,
+                2 => Call::Snapshot,
+                _ => Call::RefreshSnapshot,
+            };
+            d.out.events.insert("cycle.graph_replaced_by_copy");
+            if !d.step(&c) {
+                return false;
+            }
+        }
         // start a new cycle?
         if next_cycle < total && active.len() < overlap && (active.is_empty() || s % 3 == 0) {
             let seed = &case.cycles[next_cycle];
@@ -324,7 +337,7 @@ impl Engine for CyclesEngine {
             f.prop = "C06".into();
             f
         });
-        let mut events: Vec<&'static str> = out.events.iter().copied().filter(|e| e.starts_with("cycle.") || e.starts_with("harness.") || e.starts_with("put.over") || e.starts_with("bind.carries") || e.starts_with("put.after")).collect();
+        let mut events: Vec<&'static str> = out.events.iter().copied().filter(|e| e.starts_with("cycle.") || e.starts_with("harness.") || e.starts_with("save+load") || e.starts_with("clone") || e.starts_with("put.over") || e.starts_with("bind.carries") || e.starts_with("put.after")).collect();
         if let Some(c) = out.closed {
             events.push(c);
         }
